@@ -12,7 +12,7 @@ import re
 import z3
 from .sym import *
 from .engine import *
-from .models import model, D, as_str, opaque_msg, ForkStore, usize, LazyR
+from .models import model, D, as_str, opaque_msg, ForkStore, usize, LazyR, _WithStore
 
 
 def env_get(st, name):
@@ -405,9 +405,148 @@ def m_filter_string_stub(ex, st, c):
     s = as_str(ex, st, c.args[0])
     ok = simp_bool(filter_string_spec(s))
     if ok is True: return Ok(UNIT)
-    return Fork([(ok, Ok(UNIT)), (b_not(ok), LazyR(lambda: Err(opaque_msg(ex, st, 'FilterString'))))])
+    return Fork([(ok, Ok(UNIT)), (b_not(ok), LazyR(lambda st_: Err(opaque_msg(ex, st_, 'FilterString'))))])
 
 
 STUBS = {
     'filter_string': (re.compile(r'^(filter_string::)?FilterString::is_valid_input_string$'), m_filter_string_stub),
 }
+
+
+# ------------------------------------------------------------------ transport (mock stream) and the Application parameter
+# world['stream'] = {'input': SymStr, 'read_fail': bool|z3 Bool|None(arbitrary), 'write_mode': 'arbitrary'|'ok', ...}
+# world['io']     = tuple of events: ('read', ok) ('write', data, accepted) ('write_err', data) ('flush', ok)
+def _io(st, *e): st.world['io'] = st.world.get('io', ()) + (tuple(e),)
+
+
+@model(r'^<impl Read \+ Write \+ Unpin as (std::io::)?Read>::read$', r'^<&mut impl Read \+ Write \+ Unpin as (std::io::)?Read>::read$')
+def m_stream_read(ex, st, c):
+    cfg = st.world.get('stream')
+    if cfg is None: raise Unsupported('stream read without a stream model')
+    buf = D(ex, st, c.args[1])
+    size = buf.length()
+    if not isinstance(size, int): raise Unsupported('symbolic request buffer size')
+    inp = cfg['input']
+    # the transport delivers some prefix of what the peer sent, at most the buffer size; here: everything that fits
+    data = inp.take(size) if inp.cap > size else inp
+    n = data.length()
+    pad = size - data.cap
+    filled = data.concat(SymStr.const(b'\0' * (size - data.cap))) if isinstance(n, int) else None
+    if filled is None:
+        f = data.flat()
+        filled = SymStr((Atom(size, tuple(f.bs) + (0,) * (size - f.cap)),))
+    fail = cfg.get('read_fail')
+    if fail is None: fail = z3.Bool(ex.fresh('read_fail'))
+    return ForkStore([(fail, _IoEv(('read', False), Err(io_error())), None),
+                      (b_not(fail), _IoEv(('read', True), Ok(usize(n))), (c.args[1], filled))])
+
+
+class _IoEv:
+    def __init__(s, e, v): s.e = e; s.v = v
+
+
+@model(r'^<impl Read \+ Write \+ Unpin as (std::io::)?Write>::write$')
+def m_stream_write(ex, st, c):
+    cfg = st.world.get('stream')
+    data = D(ex, st, c.args[1])
+    n = data.length()
+    mode = cfg.get('write_mode', 'arbitrary')
+    if mode == 'ok':
+        return _IoEv(('write', data, n), Ok(usize(n)))
+    k = z3.BitVec(ex.fresh('accepted'), LW)
+    kz = k
+    fail = z3.Bool(ex.fresh('write_fail'))
+    nz = bvval(n, LW) if isinstance(n, int) else n
+    okc = z3.And(z3.Not(fail), z3.ULE(kz, nz), z3.Or(kz != 0, nz == 0))
+    return Fork([(fail, _IoEv(('write_err', data), Err(io_error()))), (okc, _IoEv(('write', data, k), Ok(usize(k))))])
+
+
+@model(r'^<impl Read \+ Write \+ Unpin as (std::io::)?Write>::write_all$')
+def m_stream_write_all(ex, st, c):
+    cfg = st.world.get('stream')
+    data = D(ex, st, c.args[1])
+    n = data.length()
+    if cfg.get('write_mode', 'arbitrary') == 'ok':
+        return _IoEv(('write', data, n), Ok(UNIT))
+    fail = z3.Bool(ex.fresh('write_all_fail'))
+    return Fork([(fail, _IoEv(('write_err', data), Err(io_error()))), (z3.Not(fail), _IoEv(('write', data, n), Ok(UNIT)))])
+
+
+@model(r'^<impl Read \+ Write \+ Unpin as (std::io::)?Write>::flush$')
+def m_stream_flush(ex, st, c):
+    cfg = st.world.get('stream')
+    if cfg.get('flush_mode', 'arbitrary') == 'ok': return _IoEv(('flush', True), Ok(UNIT))
+    fail = z3.Bool(ex.fresh('flush_fail'))
+    return Fork([(fail, _IoEv(('flush', False), Err(io_error()))), (z3.Not(fail), _IoEv(('flush', True), Ok(UNIT)))])
+
+
+@model(r'^<impl Application as Application>::execute$')
+def m_app_execute(ex, st, c):
+    mode = st.world.get('app_mode', 'real')
+    if mode == 'real':
+        fn = ex.resolve('<App as Application>::execute')
+        return CallFn(fn, list(c.args), lambda ex_, st_, r: r)
+    if mode == 'abstract-fail':
+        st.world['app_failed'] = True
+        return Err(opaque_msg(ex, st, 'app'))
+    # abstract application: any registered-status response with a short body, or an error message
+    mk = st.world['app_mk_response']
+    fail = z3.Bool(ex.fresh('app_fail'))
+    def failed(st_):
+        st_.world['app_failed'] = True
+        return Err(opaque_msg(ex, st_, 'app'))
+    return Fork([(fail, LazyR(failed)), (z3.Not(fail), LazyR(lambda st_: Ok(mk(ex, st_))))])
+
+
+@model(r'^<IpAddr as FromStr>::from_str$')
+def m_ipaddr_from_str(ex, st, c):
+    s = as_str(ex, st, c.args[0])
+    cc = s.concrete()
+    if cc is None: raise Unsupported('IpAddr::from_str of a symbolic string')
+    import ipaddress
+    try:
+        ipaddress.ip_address(cc.decode('ascii')); return Ok(Opaque('IpAddr', cc))
+    except ValueError:
+        return Err(Opaque('AddrParseError'))
+
+
+@model(r'^std::net::SocketAddr::new$')
+def m_socketaddr_new(ex, st, c): return Opaque('SocketAddr', (c.args[0], c.args[1]))
+
+
+@model(r'^<std::net::SocketAddr as ToString>::to_string$', r'^<IpAddr as ToString>::to_string$')
+def m_socketaddr_to_string(ex, st, c):
+    v = D(ex, st, c.args[0])
+    if v.tag == 'IpAddr': return SymStr.const(v.data)
+    ip, port = v.data
+    return SymStr.const(D(ex, st, ip).data + b':' + str(D(ex, st, port).v).encode())
+
+
+@model(r'^std::net::SocketAddr::ip$')
+def m_socketaddr_ip(ex, st, c): return D(ex, st, D(ex, st, c.args[0]).data[0])
+
+
+@model(r'^std::net::SocketAddr::port$')
+def m_socketaddr_port(ex, st, c): return D(ex, st, D(ex, st, c.args[0]).data[1])
+
+
+def _install_io():
+    orig = Executor.apply_result
+
+    def apply_result(s, st, fr, dest, ret_bb, res):
+        if isinstance(res, _IoEv):
+            _io(st, *res.e)
+            return s.apply_result(st, fr, dest, ret_bb, res.v)
+        return orig(s, st, fr, dest, ret_bb, res)
+    Executor.apply_result = apply_result
+
+
+_install_io()
+
+
+@model(r'^current$', r'^std::thread::current$', r'^thread::current$')
+def m_thread_current(ex, st, c): return Opaque('Thread')
+
+
+@model(r'^Thread::name$', r'^std::thread::Thread::name$')
+def m_thread_name(ex, st, c): return Some(SymStr.const('0'))     # pool workers are named by their index
